@@ -125,7 +125,13 @@ def main(argv=None):
     n_par = args.jobs or int(os.environ.get('VERIF_JOBS', '0') or 0) or min(16, os.cpu_count() or 4)
 
     sys.path.insert(0, VERIF_ROOT)
-    mod = importlib.import_module('props.' + prop.lower())
+    try:
+        mod = importlib.import_module('props.' + prop.lower())
+    except Exception:
+        import traceback
+        print('INCONCLUSIVE property=%s reason=the driver props/%s.py could not be imported: %s' % (
+            prop, prop.lower(), traceback.format_exc().replace('\n', ' | ')[-600:]))
+        return 2
     level = getattr(mod, 'LEVEL', 'exploration')
     scratch = scratch_dir('vmon_%s_' % prop)
     t0 = time.time()
